@@ -17,6 +17,7 @@ Python builds, calls and projects; every verdict (and the zone of the property) 
 import copy
 import os
 import random
+import re
 from fractions import Fraction
 from multiprocessing import Pool
 
@@ -159,6 +160,26 @@ def gen_duration(P, table, a, args):
     return None
 
 
+def tame_variable(rng, P):
+    """the compiler itself asserts on most variable-duration actions with a durative condition reaching `end`
+    (outside this property): drop most of those conditions so that mixed problems reach the conversions"""
+    for a in P["actions"]:
+        if a["kind"] == "dur" and not is_fixed(a):
+            a["conds"] = [c for c in a["conds"] if (c["iv"]["lo"] == c["iv"]["hi"]) or
+                          "end" not in (c["iv"]["lo"]["from"], c["iv"]["hi"]["from"]) or rng.random() < 0.15]
+
+
+def interleaved(P, steps):
+    """syntactic input feature: two different ground instances of one variable-duration action overlap in time"""
+    acts = {a["name"]: a for a in P["actions"]}
+    iv = []
+    for s in steps:
+        if acts[s["a"]]["kind"] == "dur" and not is_fixed(acts[s["a"]]):
+            t = F(s["t"]["n"], s["t"]["d"])
+            iv.append((s["a"], repr(s["args"]), t, t + F(s["d"]["n"], s["d"]["d"])))
+    return any(x[0] == y[0] and x[1] != y[1] and x[2] < y[3] and y[2] < x[3] for x in iv for y in iv)
+
+
 GRID = [0, 0, F(1, 2), 1, 1, F(3, 2), 2, 3, F(1, 3), F(7, 4)]
 
 
@@ -175,11 +196,21 @@ def gen_plan(rng, P, table, maxlen):
         return []
     for st in steps:
         st["t"] = NV(rng.choice(GRID))
+    gas = ground_actions(P)
     for _ in range(rng.choice([0, 1, 1, 2])):
         base = rng.choice(steps)
         st = copy.deepcopy(base)
         t0, d0 = F(base["t"]["n"], base["t"]["d"]), F(base["d"]["n"], base["d"]["d"])
-        how = rng.choice(["copy", "same-start", "inside", "touch", "later", "later", "earlier"])
+        var = acts[st["a"]]["kind"] == "dur" and not is_fixed(acts[st["a"]])
+        hows = ["copy", "same-start", "inside", "touch", "later", "later", "earlier", "other-args", "other-args"]
+        if var:
+            hows += ["later", "later", "earlier", "other-args"]
+        how = rng.choice(hows)
+        if how == "other-args":
+            others = [g for g in gas if g["a"] == st["a"] and g["args"] != st["args"]]
+            if others:
+                st["args"] = rng.choice(others)["args"]
+            how = rng.choice(["same-start", "inside", "inside"])
         if how == "inside":
             st["t"] = NV(t0 + d0 / 2)
         elif how == "touch":
@@ -188,7 +219,7 @@ def gen_plan(rng, P, table, maxlen):
             st["t"] = NV(t0 + d0 + rng.choice([F(1, 2), 1, F(1, 4)]))
         elif how == "earlier":
             st["t"] = NV(max(F(0), t0 - d0 - rng.choice([F(1, 2), 1])))
-        if how != "copy" and acts[st["a"]]["kind"] == "dur" and not is_fixed(acts[st["a"]]):
+        if how != "copy" and var:
             st["d"] = NV(F(st["d"]["n"], st["d"]["d"]) + rng.choice([0, 0, F(1, 2), 1]))
         steps.append(st)
     for st in steps:
@@ -215,14 +246,16 @@ def project_plan(plan, key):
     return out
 
 
-def compile_problem(P):
-    """-> (problem, result, skip reason)"""
+def compile_problem(P, fresh_env=False):
+    """-> (problem, result, skip reason); fresh_env: the problem lives in its own Environment"""
+    import unified_planning as up
     from unified_planning.engines import CompilationKind
     from unified_planning.engines.compilers.durative_actions_to_processes import DurativeActionToProcesses
     from unified_planning.shortcuts import Compiler
 
     try:
-        problem = call_limited(lambda: upj.build(P))
+        env = up.environment.Environment() if fresh_env else None
+        problem = call_limited(lambda: upj.build(P, env))
     except ImplTimeout:
         return None, None, "build-timeout"
     except Exception as ex:
@@ -274,7 +307,7 @@ def worker(job):
     pid, P, table, nplans, maxlen, seed, given = job
     rng = random.Random(seed)
     rec = {"pid": pid, "P": P, "keys": upj.keys_of(P), "plans": [], "skip": ""}
-    problem, res, skip = compile_problem(P)
+    problem, res, skip = compile_problem(P, fresh_env=(seed % 2 == 1))
     if skip:
         rec["skip"] = skip
         return rec
@@ -310,6 +343,7 @@ def features(P, steps):
 
 
 CHUNK = 40
+ENUM_PID = 900001
 
 
 def judge(ctx, label, batch):
@@ -370,44 +404,37 @@ def run(ctx):
     scopes = [dict(L=2, NTimes=3)] if q else [dict(L=2, NTimes=4), dict(L=3, NTimes=2)]
     enumerated = []
     for sc in scopes:
-        cfg = "SPECIFICATION Spec\nCONSTANTS L = %(L)d\n NTimes = %(NTimes)d\nINVARIANT T1\n" % sc
-        res = tlc.run_tlc("PlanConvProcEnum", cfg, d, env={"P0": p0, "OUT": out}, workers=8, timeout=3000)
-        if res.error:
+        # T1 must hold on every plan; AlwaysRoundTrip must FAIL (outside the zone the forward plan does not determine
+        # the original plan: otherwise the zone would be an arbitrary restriction); -continue reports both
+        cfg = "SPECIFICATION Spec\nCONSTANTS L = %(L)d\n NTimes = %(NTimes)d\nINVARIANT T1\nINVARIANT AlwaysRoundTrip\n" % sc
+        res = tlc.run_tlc("PlanConvProcEnum", cfg, d, env={"P0": p0, "OUT": out}, workers=8, timeout=3000, continue_=True)
+        bad = set(re.findall(r"Invariant (\S+) is violated", res.stdout))
+        if res.error and not bad:
             raise MachineryError(res.error)
         ctx.add_tlc("T1 %r" % (sc,), res)
-        if res.violated:
-            ctx.violation("T1|" + res.violated, "the specification's Back(Forward(p)) is not p inside the zone (design-level counterexample)",
-                          {"scope": sc, "trace": [s["vars"] for s in res.trace]})
+        if "T1" in bad:
+            ctx.violation("T1|design", "the specification's Back(Forward(p)) is not p inside the zone (design-level counterexample)",
+                          {"scope": sc, "stdout": res.stdout[-3000:]})
+        if "AlwaysRoundTrip" not in bad:
+            raise MachineryError("expected counterexamples to AlwaysRoundTrip outside the zone in scope %r" % (sc,))
         plans = [r["steps"] for r in tlc.read_ndjson(out)]
         em = [p for p in res.printed if p and p[0] == "EMITTED"]
         if not em or em[0][1] != len(plans) or res.distinct != len(plans) + em[0][2]:
             raise MachineryError("enumeration inconsistent: %r / %d plans / %d states" % (em, len(plans), res.distinct))
         enumerated.append((sc, plans))
-    # outside the zone the theorem must fail (otherwise the zone would be an arbitrary restriction)
-    cfg = "SPECIFICATION Spec\nCONSTANTS L = 2\n NTimes = 2\nINVARIANT AlwaysRoundTrip\n"
-    res = tlc.run_tlc("PlanConvProcEnum", cfg, d, env={"P0": p0, "OUT": ""}, workers=8, timeout=3000)
-    if res.violated != "AlwaysRoundTrip":
-        raise MachineryError("expected a counterexample to AlwaysRoundTrip outside the zone: %s %s" % (res.violated, res.error))
-    ctx.add_tlc("zone-needed", res)
     # ---- T2: the enumerated plans on the real conversions ---------------------------------
-    nontrivial = 0
+    erecs = []
     for i, (sc, plans) in enumerate(enumerated):
-        chunks = [plans[j:j + 400] for j in range(0, len(plans), 400)]
-        jobs = [(0, sp, {}, 0, 0, 0, ch) for ch in chunks]
+        chunks = [plans[j:j + 200] for j in range(0, len(plans), 200)]
+        jobs = [(0, sp, {}, 0, 0, k, ch) for k, ch in enumerate(chunks)]
         with Pool(8, maxtasksperchild=20) as pool:
             recs = pool.map(worker, jobs, chunksize=1)
         if any(r["skip"] for r in recs):
             raise MachineryError("the small problem cannot be compiled: %r" % sorted({r["skip"] for r in recs}))
-        rec = {"pid": 1, "P": sp, "keys": keys, "plans": [pl for r in recs for pl in r["plans"]]}
+        rec = {"pid": ENUM_PID + i, "P": sp, "keys": keys, "plans": [pl for r in recs for pl in r["plans"]]}
         if len(rec["plans"]) != len(plans):
             raise MachineryError("lost enumerated plans")
-        un = judge(ctx, "enum%d" % i, [rec])
-        if len(un) in (0, len(plans)):
-            raise MachineryError("exhaustive tier does not populate both sides of the zone (%d of %d outside)" % (len(un), len(plans)))
-        nontrivial += sum(1 for k, pl in enumerate(rec["plans"]) if (1, k + 1) not in un and len(pl["fwd"]["ev"]) > len(pl["steps"]))
-        if i == 0:
-            ex = next(pl for pl in rec["plans"] if len(pl["fwd"]["ev"]) > len(pl["steps"]) and len(pl["steps"]) > 1)
-            ctx.sample({"kind": "enumerated plan", "plan": ex})
+        erecs.append(rec)
     # ---- T3: generated problems x seeded plans ---------------------------------------------
     n = 330 if q else 3000
     nplans = 12 if q else 24
@@ -418,6 +445,7 @@ def run(ctx):
         ("fixed-param", TGen(rng, fixed_durations=True, objfluents=False, **MASK)),
         ("fixed-param", TGen(rng, fixed_durations=True, objfluents=False, inst_actions=False, max_objects=3, **MASK)),
         ("mixed", TGen(rng, fixed_durations=False, objfluents=False, **MASK)),
+        ("mixed", TGen(rng, fixed_durations=False, objfluents=False, inst_actions=False, **MASK)),
         ("fixed-objfl", TGen(rng, fixed_durations=True, objfluents=True, **MASK)),
     ]
     for i in range(n):
@@ -425,6 +453,8 @@ def run(ctx):
         P = g.problem()
         P["timed_goals"] = []  # not in the compiler's supported kind
         table = param_durations(rng, P) if tag == "fixed-param" else {}
+        if tag == "mixed":
+            tame_variable(rng, P)
         corpus.append((tag, P, table))
     jobs = [(i + 1, P, table, nplans, 4 if q else 5, ctx.seed * 7919 + i, None) for i, (tag, P, table) in enumerate(corpus)]
     with Pool(8, maxtasksperchild=40) as pool:
@@ -436,8 +466,17 @@ def run(ctx):
     batch = [r for r in recs if not r["skip"] and r["plans"]]
     if len(batch) < n // 3:
         raise MachineryError("too few problems compiled: %d of %d (%r)" % (len(batch), n, skipped))
-    un = judge(ctx, "random", batch)
-    feat = {"variable-duration": 0, "param-duration": 0, "repeated-instance": 0, "identical-steps": 0, "end-events": 0}
+    un = judge(ctx, "all", erecs + batch)
+    nontrivial = 0
+    for rec in erecs:
+        nun = sum(1 for (pid, pi) in un if pid == rec["pid"])
+        if nun in (0, len(rec["plans"])):
+            raise MachineryError("exhaustive tier does not populate both sides of the zone (%d of %d outside)" % (nun, len(rec["plans"])))
+        nontrivial += sum(1 for k, pl in enumerate(rec["plans"]) if (rec["pid"], k + 1) not in un and len(pl["fwd"]["ev"]) > len(pl["steps"]))
+    ex = next(pl for pl in erecs[0]["plans"] if len(pl["fwd"]["ev"]) > len(pl["steps"]) > 1)
+    ctx.sample({"kind": "enumerated plan", "plan": ex})
+    feat = {"variable-duration": 0, "param-duration": 0, "repeated-instance": 0, "identical-steps": 0, "end-events": 0,
+            "two-instances-of-a-variable-action-interleaved": 0}
     for r in batch:
         for k, pl in enumerate(r["plans"]):
             if (r["pid"], k + 1) in un:
@@ -451,13 +490,14 @@ def run(ctx):
             feat["identical-steps"] += len(set(full)) < len(full)
             ends = len(pl["fwd"]["ev"]) > len(pl["steps"])
             feat["end-events"] += ends
+            feat["two-instances-of-a-variable-action-interleaved"] += interleaved(r["P"], pl["steps"])
             nontrivial += rep or ends
     ctx.cov["distinct_nontrivial"] = nontrivial
     ctx.cov["problems_judged"] = len(batch)
     ctx.cov["problems_skipped"] = skipped
     ctx.cov["plans_with_feature"] = feat
     ctx.cov["outside_zone"] = ctx.notes.get("zone", {})
-    for k in ("variable-duration", "param-duration", "repeated-instance", "identical-steps", "end-events"):
+    for k in feat:
         if feat[k] == 0:
             raise MachineryError("vacuous corpus: no judged plan with feature %s" % k)
     ex = next((pl for r in batch for pl in r["plans"] if len(pl["fwd"]["ev"]) > len(pl["steps"]) > 1), batch[0]["plans"][0])
